@@ -349,8 +349,15 @@ def execute(sc, workdir):
     tlc.write_ndjson(tf, header, events + [dict(c="END")])
     v = tlc.validate_trace("T_Bist", tf, workdir, xmx="4g")
     info = v["info"]
+    vbad = v["bad"]
+    truncated = None
     if info["envbad"]:
-        raise RuntimeError("environment condition broken (harness / ideal memory): %s" % info["envbad"][:3])
+        # the memory model of the monitor and the ideal memory disagree from some line on.  Clauses broken BEFORE that
+        # line were judged in an intact environment and stand; without any, this is a machinery failure, not a verdict.
+        truncated = min(b[0] for b in info["envbad"])
+        vbad = [b for b in vbad if b[0] < truncated]
+        if not vbad:
+            raise RuntimeError("environment condition broken (harness / ideal memory): %s" % info["envbad"][:3])
     # session index of every line (for the stock-interpreter confirmation run)
     sess, idx = [], -1
     for e in events:
@@ -358,7 +365,7 @@ def execute(sc, workdir):
             idx += 1
         sess.append(idx)
     bad, hints = [], []
-    for b in v["bad"]:
+    for b in vbad:
         ln = b[0]
         e_idx = ln - 2
         si = sess[e_idx] if 0 <= e_idx < len(sess) else 0
@@ -374,6 +381,8 @@ def execute(sc, workdir):
     stt = info["stats"]
     nsess = sum(1 for e in events if e["c"] == "NEW")
     sample = dict(cfg=header, cycles=cycles, sessions=nsess, stats=stt, first_events=events[:8])
+    if truncated:
+        sample["verdict_limited_to_lines_before"] = truncated
     return dict(bad=bad, confirm_hint=([min(hints)] if hints else None), evaluations=stt["runs"] + nsess, nontrivial=keys,
                 traces=1, sample=sample,
                 stats=dict(cycles=cycles, events=len(events), sessions=nsess, checker_runs=stt["runs"], runs_expect0_norepeat=stt["clean0"],
